@@ -597,8 +597,7 @@ def rule_models_spare_endpoint_names(repo: Repo, rep, rule: str = "R20.13") -> N
     need = {**{a: f"{hs.relpath}:1" for a in sorted(aliases)}, **used}
     # a class name comes out of sanitize_class_name, which joins `word.capitalize()` pieces: no two capitals in a row - `HTTPError` becomes `HttpError`
     scn = repo.module("core.utils").classes["NameSanitizer"].methods.get("sanitize_class_name")
-    if scn is not None and any(isinstance(c, ast.Call) and isinstance(c.func, ast.Attribute) and c.func.attr == "capitalize" for c in ast.walk(scn.node)) and any(
-            isinstance(c, ast.Call) and isinstance(c.func, ast.Attribute) and c.func.attr == "join" for c in ast.walk(scn.node)):
+    if scn is not None and any(isinstance(c, ast.Call) and isinstance(c.func, ast.Attribute) and c.func.attr == "capitalize" for c in ast.walk(scn.node)):
         need = {n_: w_ for n_, w_ in need.items() if not _re.search(r"[A-Z]{2}", n_)}
     missing = sorted(n for n in need if n not in refused)
     if missing:
